@@ -48,6 +48,10 @@ func (c *Ctx) loadCorpus(specs []corpusSpec, want func(*SemRec) bool) []*SemRec 
 			if s.module == "FamWild" && rec.Status == "error" && rec.Diags[0].Kind == "operand" {
 				return nil
 			}
+			// ... and so are the cells of the operator matrix that ARE that finding (they belong to C02's check)
+			if s.module == "FamOps" && reStrBoolCell.MatchString(rec.Cls) {
+				return nil
+			}
 			all = append(all, &rec)
 			return nil
 		})
@@ -65,6 +69,8 @@ func (c *Ctx) loadCorpus(specs []corpusSpec, want func(*SemRec) bool) []*SemRec 
 	}
 	return out
 }
+
+var reStrBoolCell = regexp.MustCompile(`^\+\|(str-[a-z]+\|bool|bool\|str-[a-z]+)$`)
 
 var reClock = regexp.MustCompile(`\d\.\d+e\+09`)
 
@@ -517,7 +523,7 @@ func checkC18(c *Ctx) {
 	corpus := c.loadCorpus(sel, func(r *SemRec) bool {
 		// printed function values quote the (renamed) name: keep them out of the renaming comparison by skipping such programs
 		for _, o := range r.Out {
-			if o.V.T == "fn" {
+			if containsFn(&o.V) {
 				return false
 			}
 		}
@@ -679,4 +685,22 @@ func (c *Ctx) metaExamples(rng *rand.Rand) int64 {
 func init() {
 	checks["C13"] = checkC13
 	checks["C18"] = checkC18
+}
+
+// containsFn: does a printed value show a function (whose text quotes its name) anywhere inside?
+func containsFn(v *XVal) bool {
+	if v.T == "fn" {
+		return true
+	}
+	for i := range v.E {
+		if containsFn(&v.E[i]) {
+			return true
+		}
+	}
+	for i := range v.Vs {
+		if containsFn(&v.Vs[i]) {
+			return true
+		}
+	}
+	return false
 }
